@@ -33,7 +33,7 @@ PARTIAL = ('proved for the model, all n >= 1, numiter >= 1, every ordered field 
            'numpy.linalg.norm meets its contract on the issued calls, the breakdown test only lets positive norms pass. '
            'Only validated, not proved: that the mirror equals krylov.py (replay), and floating-point effects '
            '(loss of orthogonality, a breakdown test decided by rounding noise).')
-ASSUMPTIONS = ['cases with a recorded loop norm in [100 n eps, 1e-6) (floating point noise decides the breakdown test) are '
+ASSUMPTIONS = ['cases with a recorded loop norm in [100 n eps, 1e-6 max|A_ij|) (floating point noise decides the breakdown test) are '
                'excluded from the correspondence and counted in the class "ambiguous"']
 
 SPECS = ['generic'] * 10 + ['degenerate'] * 6 + ['scalar', 'zero']
@@ -82,6 +82,7 @@ def cases(rng, tier):
         if routine == 'lanczos' and rng.random() < 0.08:
             m = n + 1
         out.append(_case(rng, routine, n, m, rng.random() < 0.55, rng.choice(SPECS), rng.choice(STARTS)))
+    KC.add_magnitudes(rng, out)
     return out
 
 
@@ -130,8 +131,8 @@ def coq(case, r):
         fn = 'lanczos' if case['routine'] == 'lanczos' else 'arnoldi'
         return ('match %s QcF (matvec %s) (norm_tab QcF tol9 [qd 0 0%%N]) (small_thr QcF %s) %s %s with None => true | Some _ => false end'
                 % (fn, KC.cmat(KC.j2c(case['A'])), KC.qd(KC.thr_of(n)), KC.cvec(v), E.nat(m)))
-    if KC.ambiguous(r['norms'], n):
-        return None
+    if KC.ambiguous(r['norms'], n, KC.case_scale(case)) or case.get('mag'):
+        return None      # magnitude regimes: implementation-level property only (the tolerances of the Coq-side oracle lookup are absolute)
     head = KC.lanczos_args(case, r, r['norms'])
     if case['routine'] == 'lanczos':
         return 'check_lanczos %s %s %s %s %s' % (head, E.boolean(_full(r)), KC.cvec(v), E.nat(m), KC.lanczos_out(r, r['warn']))
@@ -149,7 +150,7 @@ def coq_diag(case, r):
 def klass(case, r):
     if 'error' in r:
         return '%s/error:%s' % (case['routine'], r['error'])
-    amb = '/ambiguous' if KC.ambiguous(r['norms'], case['n']) else ''
+    amb = '/ambiguous' if KC.ambiguous(r['norms'], case['n'], KC.case_scale(case)) else ''
     spec = case['spectrum'] if case['spectrum'] in ('generic', 'degenerate') else 'trivialA'
     start = 'invariant-start' if case['start'] in ('invariant', 'eigvec') else 'generic-start'
     return '%s/%s/%s/%s/%s%s%s' % (case['routine'], 'real' if case['real_A'] else 'cplx', spec, start,
